@@ -19,7 +19,9 @@
       runtime execution that no Gallina model exhibits; it is covered by the harness only
       (goroutines + a -race build, see notes/C20.md);
     * [..._partial] theorems carry a premise about a function that is not modelled (the memoising
-      DFS of schemahcl's evalReferences, forEachBlocks, the bucket effect of QualifyObjects);
+      DFS of schemahcl's evalReferences, the bucket effect of QualifyObjects);
+    * the models of State.EvalOptions, Resource.as and registry.lookup follow the tree WITH the
+      three fixes notes/fixes/C20-hcl-*.diff (before them each had a _refuted/_except pair);
     * [C20_decl_order_partial] covers DetachCycles only, under the premise that both orders agree
       on cyclicity; that SortChanges emits a permutation respecting dependsOn is C04's theorem, and
       "the resulting schema is the same" is checked on the real SQLite engine by the harness. *)
@@ -199,37 +201,20 @@ Proof. vm_compute. split; reflexivity. Qed.
 
 (** * schemahcl/schemahcl.go *)
 
-(* reproduced on the real code: known finding C20-multifile-locals *)
-Theorem C20_map_order_irrelevant_EvalOptions_files_refuted :
-  exists files files' : list hclfile,
-    Permutation files files' /\ NoDup (map fst files) /\ EvalOptions_files files <> EvalOptions_files files'.
-Proof. exact EvalOptions_files_order_matters. Qed.
-Print Assumptions C20_map_order_irrelevant_EvalOptions_files_refuted.
-Theorem C20_map_order_irrelevant_EvalOptions_files_except : forall files files' : list hclfile,
+(* State.EvalOptions after fix C20-hcl-multifile-locals (files are visited in the order of their
+   sorted names; before the fix the faithful model depended on the map order: whether a local
+   referring to a local of another file resolved was random).  What remains is deterministic: it
+   resolves iff the defining file has the smaller name. *)
+Theorem C20_map_order_irrelevant_EvalOptions_files : forall files files' : list hclfile,
   Permutation files files' -> NoDup (map fst files) ->
-  Forall (fun f : hclfile => snd (snd f) = []) files ->
   EvalOptions_files files = EvalOptions_files files'.
-Proof. exact EvalOptions_files_perm_except. Qed.
-Print Assumptions C20_map_order_irrelevant_EvalOptions_files_except.
+Proof. exact EvalOptions_files_perm. Qed.
+Print Assumptions C20_map_order_irrelevant_EvalOptions_files.
 Example C20_EvalOptions_files_ex :
-  EvalOptions_files [(ex_b, ([ex_y], [])); (ex_a, ([ex_x], []))] = Some [ex_a; ex_b]
+  EvalOptions_files [(ex_b, ([ex_y], [ex_x])); (ex_a, ([ex_x], []))] = Some [ex_a; ex_b]
   /\ EvalOptions_files [(ex_a, ([ex_x], [])); (ex_b, ([ex_y], [ex_x]))] = Some [ex_a; ex_b]
-  /\ EvalOptions_files [(ex_b, ([ex_y], [ex_x])); (ex_a, ([ex_x], []))] = None.
+  /\ EvalOptions_files [(ex_a, ([ex_y], [ex_x])); (ex_b, ([ex_x], []))] = None.
 Proof. vm_compute. repeat split; reflexivity. Qed.
-
-(* PARTIAL: forEachBlocks + the registration of the generated blocks are not modelled; premise:
-   the per-file steps of two different files commute *)
-Theorem C20_map_order_irrelevant_EvalOptions_metaBlocks_partial :
-  forall (Ctx Node : Type) (forEachFile : Ctx -> bytes * Node -> option Ctx),
-  (forall a b c, fst a <> fst b ->
-     bindo (forEachFile c a) (fun c' => forEachFile c' b) = bindo (forEachFile c b) (fun c' => forEachFile c' a)) ->
-  forall m m' : list (bytes * Node), Permutation m m' -> NoDup (map fst m) ->
-  forall c, EvalOptions_metaBlocks Ctx Node forEachFile m c = EvalOptions_metaBlocks Ctx Node forEachFile m' c.
-Proof. exact EvalOptions_metaBlocks_perm_partial. Qed.
-Print Assumptions C20_map_order_irrelevant_EvalOptions_metaBlocks_partial.
-Example C20_EvalOptions_metaBlocks_ex :
-  EvalOptions_metaBlocks nat nat (fun c e => Some (c + snd e)) [([97%N], 1); ([98%N], 2)] 0 = Some 3.
-Proof. vm_compute. reflexivity. Qed.
 
 Theorem C20_map_order_irrelevant_copyBlock :
   forall (Node Val : Type) (blockVal : bytes -> Node -> option Val) (attrs attrs' : list (bytes * Node)),
@@ -255,44 +240,26 @@ Proof. vm_compute. split; reflexivity. Qed.
 
 (** * schemahcl/extension.go *)
 
-(* reproduced on the real code: known finding C20-remain-order *)
-Theorem C20_map_order_irrelevant_Resource_as_attrs_refuted :
-  exists l l' : list (bytes * nat),
-    Permutation l l' /\ NoDup (map fst l) /\ as_extra_attrs l [] <> as_extra_attrs l' [].
-Proof. exact as_extra_attrs_order_leaks. Qed.
-Print Assumptions C20_map_order_irrelevant_Resource_as_attrs_refuted.
-(* exact characterisation: the remainder is the iteration order verbatim, hence the same set of
-   attributes and, once sorted by name, the same list *)
-Theorem C20_map_order_irrelevant_Resource_as_attrs_except : forall (V : Type) (l l' extra : list (bytes * V)),
-  Permutation l l' -> NoDup (map fst (extra ++ l)) ->
-  as_extra_attrs l extra = extra ++ l
-  /\ Permutation (as_extra_attrs l extra) (as_extra_attrs l' extra)
-  /\ byKeys (as_extra_attrs l extra) = byKeys (as_extra_attrs l' extra).
-Proof.
-  exact (fun V l l' extra P H =>
-    conj (as_extra_attrs_is_iteration_order l extra H) (as_extra_attrs_perm_except l l' extra P H)).
-Qed.
-Print Assumptions C20_map_order_irrelevant_Resource_as_attrs_except.
+(* Resource.as after fix C20-hcl-remain-order: the remainder keeps the order of r.Attrs /
+   r.Children; the maps existingAttrs / existingChildren are only looked up (and deleted from) *)
+Theorem C20_map_order_irrelevant_Resource_as_attrs :
+  forall (V : Type) (rattrs : list (bytes * V)) (ex ex' : list bytes) (extra : list (bytes * V)),
+  Permutation ex ex' -> as_extra_attrs rattrs ex extra = as_extra_attrs rattrs ex' extra.
+Proof. exact @as_extra_attrs_perm. Qed.
+Print Assumptions C20_map_order_irrelevant_Resource_as_attrs.
 Example C20_Resource_as_attrs_ex :
-  as_extra_attrs [(ex_b, 2); (ex_a, 1)] [(ex_x, 0)] = [(ex_x, 0); (ex_b, 2); (ex_a, 1)]
-  /\ as_extra_attrs [(ex_b, 2); (ex_x, 9)] [(ex_x, 0)] = [(ex_x, 9); (ex_b, 2)].
+  as_extra_attrs [(ex_a, 1); (ex_b, 2); (ex_y, 3); (ex_b, 4)] [ex_y; ex_b] [(ex_x, 0)] = [(ex_x, 0); (ex_b, 2); (ex_y, 3)]
+  /\ as_extra_attrs [(ex_a, 1); (ex_b, 2); (ex_y, 3); (ex_b, 4)] [ex_b; ex_y] [(ex_x, 0)] = [(ex_x, 0); (ex_b, 2); (ex_y, 3)].
 Proof. vm_compute. split; reflexivity. Qed.
 
-Theorem C20_map_order_irrelevant_Resource_as_children_refuted :
-  exists (children : list bytes) (l l' : list (bytes * unit)),
-    Permutation l l' /\ NoDup (map fst l) /\
-    as_extra_children (fun c => c) children l [] <> as_extra_children (fun c => c) children l' [].
-Proof. exact as_extra_children_order_leaks. Qed.
-Print Assumptions C20_map_order_irrelevant_Resource_as_children_refuted.
-Theorem C20_map_order_irrelevant_Resource_as_children_except :
-  forall (C : Type) (ctype : C -> bytes) (children : list C) (l l' : list (bytes * unit)) (extra : list C),
-  Permutation l l' ->
-  Permutation (as_extra_children ctype children l extra) (as_extra_children ctype children l' extra).
-Proof. exact @as_extra_children_perm_except. Qed.
-Print Assumptions C20_map_order_irrelevant_Resource_as_children_except.
+Theorem C20_map_order_irrelevant_Resource_as_children :
+  forall (C : Type) (ctype : C -> bytes) (children : list C) (ex ex' : list bytes) (extra : list C),
+  Permutation ex ex' -> as_extra_children ctype children ex extra = as_extra_children ctype children ex' extra.
+Proof. exact @as_extra_children_perm. Qed.
+Print Assumptions C20_map_order_irrelevant_Resource_as_children.
 Example C20_Resource_as_children_ex :
-  as_extra_children (fun c => fst c) [(ex_a, 1); (ex_b, 2); (ex_a, 3)] [(ex_b, tt); (ex_a, tt)] []
-  = [(ex_b, 2); (ex_a, 1); (ex_a, 3)].
+  as_extra_children (fun c => fst c) [(ex_a, 1); (ex_b, 2); (ex_x, 9); (ex_a, 3)] [ex_b; ex_a] []
+  = [(ex_a, 1); (ex_b, 2); (ex_a, 3)].
 Proof. vm_compute. reflexivity. Qed.
 
 Theorem C20_map_order_irrelevant_implementers :
@@ -306,21 +273,18 @@ Example C20_implementers_ex :
   = [(ex_b, 2); (ex_a, 3)].
 Proof. vm_compute. reflexivity. Qed.
 
-(* reproduced on the real code (Resource.Scan of a *sqlspec.View): known finding C20-scan-type *)
-Theorem C20_map_order_irrelevant_lookup_refuted :
-  exists r r' : list (bytes * nat),
-    Permutation r r' /\ NoDup (map fst r) /\ lookup (Nat.eqb 7) r <> lookup (Nat.eqb 7) r'.
-Proof. exact lookup_order_matters. Qed.
-Print Assumptions C20_map_order_irrelevant_lookup_refuted.
-Theorem C20_map_order_irrelevant_lookup_except : forall (T : Type) (same : T -> bool) (r r' : list (bytes * T)),
-  Permutation r r' ->
-  (forall a b, In a r -> In b r -> same (snd a) = true -> same (snd b) = true -> a = b) ->
-  lookup same r = lookup same r'.
-Proof. exact @lookup_perm_except. Qed.
-Print Assumptions C20_map_order_irrelevant_lookup_except.
+(* registry.lookup after fix C20-hcl-scan-type: first name in REGISTRATION order whose entry has
+   the same Go type ("view" before "materialized", "function" before "procedure") *)
+Theorem C20_map_order_irrelevant_lookup :
+  forall (T : Type) (same : T -> bool) (names : list bytes) (r r' : list (bytes * T)),
+  Permutation r r' -> NoDup (map fst r) -> lookup same names r = lookup same names r'.
+Proof. exact @lookup_perm. Qed.
+Print Assumptions C20_map_order_irrelevant_lookup.
 Example C20_lookup_ex :
-  lookup (Nat.eqb 7) [(ex_a, 1); (ex_b, 7); (ex_x, 3)] = Some ex_b /\ lookup (Nat.eqb 9) [(ex_a, 1)] = None.
-Proof. vm_compute. split; reflexivity. Qed.
+  lookup (Nat.eqb 7) [ex_a; ex_b; ex_x] [(ex_x, 3); (ex_b, 7); (ex_a, 7)] = Some ex_a
+  /\ lookup (Nat.eqb 7) [ex_a; ex_b; ex_x] [(ex_a, 7); (ex_x, 3); (ex_b, 7)] = Some ex_a
+  /\ lookup (Nat.eqb 9) [ex_a] [(ex_a, 1)] = None.
+Proof. vm_compute. repeat split; reflexivity. Qed.
 
 (** * sql/internal/specutil *)
 
